@@ -211,6 +211,10 @@ func (c *Ctx) runCase(idx int64, desc string, fn func(k *K)) {
 	}()
 	c.curStart.Store(0)
 	c.evals++
+	if c.sampleSeen["case"] < 2 && idx%7 == 3 {
+		c.sampleSeen["case"]++
+		c.samples = append(c.samples, map[string]any{"class": "case", "case_idx": idx, "case": desc})
+	}
 	if k.nontrivial {
 		d := k.distinct
 		if d == "" {
